@@ -90,6 +90,18 @@ Theorem C17_partitioning_irrelevant_partial : forall lo hi parts parts',
   Permutation (concat parts) (concat parts') -> concat parts <> [] -> rdd_stats lo hi parts = rdd_stats lo hi parts'.
 Proof. exact rdd_stats_partitioning_irrelevant. Qed.
 
+(* sessions on REUSED RDD objects: summaries handed out by rdd.stats() are merged (as receiver or argument), merged with
+   themselves, have values folded in, and the same RDDs are asked again in between.  Every summary left on the stack
+   has the two-pass values of the data that went into it, and every later observation of an RDD has the two-pass
+   values of THAT RDD's data (concat of its partitions), whatever was done to its earlier summaries.  (That
+   rdd.stats() hands out a fresh summary on every call is the modelled behaviour of RDD.stats; it is tied to the code
+   by the wiring shape check and by the `session` cases of the correspondence.) *)
+Theorem C17_session_partial : forall lo hi rdds prog obs stack,
+  session lo hi rdds prog [] [] = Some (obs, stack) ->
+  Forall (fun o => TwoPass lo hi (fst o) (snd o)) stack /\
+  Forall (fun o => TwoPass lo hi (fst o) (snd o) /\ exists parts, In parts rdds /\ snd o = concat parts) obs.
+Proof. exact session_two_pass. Qed.
+
 (* the single clauses, unfolded for the reader (xs non-empty; max/min need the sentinels to bound the data) *)
 Theorem C17_mean_partial : forall lo hi parts, concat parts <> [] ->
   st_mean (rdd_stats lo hi parts) = sumR (concat parts) / len (concat parts).
@@ -201,6 +213,11 @@ Example order_premises_hold_for_R :
   (forall a b c : @F ROps, True -> True -> True -> fltb a b = true -> fltb b c = true -> fltb a c = true) /\
   (forall a b c : @F ROps, True -> True -> True -> fltb a b = false -> fltb b c = false -> fltb a c = false).
 Proof. exact R_order_premises. Qed.
+Example session_instance :
+  exists obs stack,
+    session 0 0 [[[1; 2]; [3]]; [[10]]] [SPush 0%nat; SPush 1%nat; SMerge; SObserve 0%nat; SPush 0%nat; SSelf; SFold 5] [] []
+    = Some (obs, stack) /\ length obs = 1%nat /\ length stack = 2%nat.
+Proof. eexists. eexists. split; [reflexivity|]. split; reflexivity. Qed.
 (* ... and the invariant is not trivially true: a counter with a wrong mean does not represent the data *)
 Example rep_discriminates : ~ Rep 0 0 (mkSC 2 1 0 0 0 : @sc ROps) [1; 2].
 Proof. intros [_ H _ _ _]. cbn in H. lra. Qed.
